@@ -1,6 +1,8 @@
 package chainenv
 
 import (
+	"runtime"
+	"sync"
 	"bytes"
 	"encoding/hex"
 	"fmt"
@@ -46,6 +48,7 @@ type RunOpts struct {
 	MixFlavour       bool
 	CheckSeqEachStep bool
 	WithDB           bool
+	Conc             int // >1: the order is dealt round-robin to Conc goroutines which deliver concurrently (as the module's per-message goroutines do)
 	NodeOpts         func(o *node.Options)
 }
 
@@ -69,6 +72,64 @@ func RunOrderOn(n *node.Node, t *Tree, order []int, o RunOpts) *RunResult {
 	txs, blocks := t.AllTx()
 	addrs := Addrs(blocks)
 	lastSeq := int64(-2)
+	if o.Conc > 1 {
+		var mu sync.Mutex
+		var wg sync.WaitGroup
+		for g := 0; g < o.Conc; g++ {
+			wg.Add(1)
+			go func(g int) {
+				defer wg.Done()
+				for k := g; k < len(order); k += o.Conc {
+					i := order[k]
+					b := t.Block(i)
+					bc := o.Broadcast
+					if o.MixFlavour {
+						bc = (k+i)%2 == 0
+					}
+					err := n.Deliver(b, bc, fmt.Sprintf("peer%d", i%3))
+					if err != nil && err != types.ErrBlockExist {
+						mu.Lock()
+						res.Errs = append(res.Errs, fmt.Sprintf("concurrent deliver #%d block %d (h=%d): %v", k, i, b.Height, err))
+						mu.Unlock()
+					}
+				}
+			}(g)
+		}
+		// online monitor while the deliveries race: the last sequence number never goes backwards and every sequence
+		// up to it is readable (a sequence record is written in the same batch as the block it describes)
+		stop := make(chan struct{})
+		mdone := make(chan struct{})
+		go func() {
+			defer close(mdone)
+			bs := n.Chain.GetStore()
+			prev := int64(-2)
+			for {
+				last, err := bs.LoadBlockLastSequence()
+				if err == nil {
+					res.SeqObs++
+					if last < prev {
+						res.SeqProblems = append(res.SeqProblems, fmt.Sprintf("during concurrent delivery: last sequence went backwards %d -> %d", prev, last))
+					}
+					if last >= 0 {
+						if it, err := bs.GetBlockSequence(last); err != nil || it == nil {
+							res.SeqProblems = append(res.SeqProblems, fmt.Sprintf("during concurrent delivery: last sequence %d announced but not readable: %v", last, err))
+						}
+					}
+					prev = last
+				}
+				select {
+				case <-stop:
+					return
+				default:
+					runtime.Gosched()
+				}
+			}
+		}()
+		wg.Wait()
+		close(stop)
+		<-mdone
+		order = nil
+	}
 	for k, i := range order {
 		b := t.Block(i)
 		bc := o.Broadcast
